@@ -3,6 +3,8 @@ CONSTANTS
   B = 1
   MaxArr = 4
   Srcs = {1}
+  LevelTriggered = TRUE
+  MaxBatches = 16
   DrainExitsOnEmptyBatch = FALSE
 VIEW mview
 ACTION_CONSTRAINT Emit
